@@ -22,7 +22,7 @@ RULE = ("random trunk/heads programs (gen.build_mtl: 1..3 shared params, dense o
         "container = frozen trunk / a strict subset; tasks: as generated / every task empty / the first, the last or a "
         "random set of positions listing zero parameters / random subsets; the product includes 'everything empty' and "
         "'empty shared with defaulted tasks'; unlisted parameters must stay untouched) x single-tensor or list "
-        "`features` x pre-existing .grad x dtype. "
+        "`features` x pre-existing .grad x dtype x (every 7th case) the same loss tensor listed twice. "
         "Oracle: per-loss torch.autograd.grad on a twin graph: task params get the sum over the tasks listing them, "
         "shared params the slices of A(J), row i = d losses[i]/d shared. distinct = (program trace, aggregator, "
         "chunk, containers, listing); non-trivial = J has >=2 pairwise different non-zero rows (a permutation of "
@@ -89,6 +89,11 @@ def cases(tier, seed, focus=None):
             if tp == "default":
                 tmode = "asis"
             case.update(tp=tp, sp=sp, smode=smode, tmode=tmode)
+        if i % 7 == 3:
+            # the SAME loss tensor listed twice (up-weighting a task under Mean / UPGrad): two tasks, two rows of the Jacobian, its
+            # parameters updated by both occurrences; the graph is differentiated once per occurrence, so it must be retained
+            case["dup_loss"] = True
+            case["retain"] = True
         yield case
 
 
@@ -172,6 +177,12 @@ def _programs(case):
     tmode = case.get("tmode", "asis") if tp != "default" else "asis"
     for p in ps:
         mtl_restrict(p, smode, tmode, case["pre_seed"])
+        if case.get("dup_loss"):
+            r = random.Random(case["pre_seed"])
+            j, pos = r.randrange(len(p.losses)), r.randrange(len(p.losses) + 1)
+            p.losses.insert(pos, p.losses[j])
+            p.tasks_params.insert(pos, list(p.tasks_params[j]))
+            p.desc.append(f"DUPLOSS{j}@{pos}")
     return ps
 
 
